@@ -5,6 +5,7 @@ import Pyunicorn.Lemmas.NsiBfs
 import Pyunicorn.Lemmas.NsiRw
 import Pyunicorn.Lemmas.NsiEig
 import Pyunicorn.Lemmas.NsiArenasReg
+import Pyunicorn.Lemmas.NsiComp
 import Pyunicorn.Model.NsiMeasures
 /-!
 # C02 — Node-splitting invariance of all n.s.i. measures
@@ -565,6 +566,81 @@ theorem nsi_arenas_betweenness_twinness_split_connected (G : Gr) (v : Nat) (p : 
     (fun i hi => arenas_regular (split G v p) hw' (split_connected G v p hv hloop hconn) _ i hi
       (twinness_diag (split G v p) hw' hsym' i hi)
       (fun r _ _ => twinness_bounds (split G v p) hw' i r hi)) excl j hj
+
+
+/-! ### round 5: the per-component wrapper of the random-walk betweennesses
+
+`nsi_newman_betweenness` / `nsi_arenas_betweenness` loop over `graph.connected_components()`, build
+`subnet = Network(components.subgraph(c), node_weights[nodes])` and copy the values back
+(`Model/NsiComp.lean`).  Under a split the component of the split node gains the twin as its last
+node and its sub-network **is** the split of the old sub-network; every other component is handed
+over unchanged.  So the theorems for connected networks above apply to what the wrapper computes. -/
+
+/-- the components of the split graph are the preimages of the components of the graph -/
+theorem components_of_split (G : Gr) (v : Nat) (p : Rat) (hv : v < G.n)
+    (hloop : ∀ i, G.adj i i = false) (a : Nat) (ha : a < G.n + 1) :
+    compNodes (split G v p) a
+      = compNodes G (collapse G.n v a)
+        ++ (if (bfsDist G (collapse G.n v a) v).isSome then [G.n] else []) :=
+  compNodes_split G v p hv hloop a ha
+
+/-- **the sub-network the wrapper builds for the component of the split node is the split of the
+sub-network it builds on the original network** (node count, every node weight, every link; the
+split node sits at its position `idxOf v` in the component, the twin is the last node) -/
+theorem subnetwork_of_split (G : Gr) (v : Nat) (p : Rat) (hv : v < G.n)
+    (hloop : ∀ i, G.adj i i = false) (a : Nat) (ha : a < G.n + 1)
+    (hr : (bfsDist G (collapse G.n v a) v).isSome = true) :
+    let nodes := compNodes G (collapse G.n v a)
+    let H' := subGr (split G v p) (compNodes (split G v p) a)
+    let H := split (subGr G nodes) (nodes.idxOf v) p
+    H'.n = H.n ∧ (∀ i, i < H.n → H'.w i = H.w i) ∧ (∀ i j, i < H.n → j < H.n → H'.adj i j = H.adj i j) := by
+  intro nodes H' H
+  have hc : compNodes (split G v p) a = nodes ++ [G.n] := by
+    rw [compNodes_split G v p hv hloop a ha, hr]; rfl
+  have hlt : ∀ x ∈ nodes, x < G.n := fun x hx => List.mem_range.mp (List.mem_filter.mp hx).1
+  have hnd : nodes.Nodup := List.Nodup.filter _ List.nodup_range
+  have hvm : v ∈ nodes := List.mem_filter.mpr ⟨List.mem_range.mpr hv, hr⟩
+  have hn : H.n = nodes.length + 1 := rfl
+  refine ⟨?_, ?_, ?_⟩
+  · show (subGr (split G v p) (compNodes (split G v p) a)).n = _
+    rw [hc]; exact subGr_split_n G v p nodes
+  · intro i hi
+    show (subGr (split G v p) (compNodes (split G v p) a)).w i = _
+    rw [hc]; exact subGr_split_w G v p nodes hlt hnd hvm i (hn ▸ hi)
+  · intro i j hi hj
+    show (subGr (split G v p) (compNodes (split G v p) a)).adj i j = _
+    rw [hc]; exact subGr_split_adj G v p nodes hlt hnd hvm i j (hn ▸ hi) (hn ▸ hj)
+
+/-- a component that does not contain the split node: same node list, same sub-network -/
+theorem subnetwork_of_other_component (G : Gr) (v : Nat) (p : Rat) (hv : v < G.n)
+    (hloop : ∀ i, G.adj i i = false) (a : Nat) (ha : a < G.n + 1)
+    (hr : (bfsDist G (collapse G.n v a) v).isSome = false) :
+    let nodes := compNodes G (collapse G.n v a)
+    compNodes (split G v p) a = nodes ∧
+    (subGr (split G v p) nodes).n = (subGr G nodes).n ∧
+    ∀ i j, i < nodes.length → j < nodes.length →
+      (subGr (split G v p) nodes).w i = (subGr G nodes).w i ∧
+      (subGr (split G v p) nodes).adj i j = (subGr G nodes).adj i j := by
+  intro nodes
+  have hlt : ∀ x ∈ nodes, x < G.n := fun x hx => List.mem_range.mp (List.mem_filter.mp hx).1
+  have hvm : v ∉ nodes := fun h => by
+    have := (List.mem_filter.mp h).2
+    rw [hr] at this; exact absurd this (by simp)
+  refine ⟨?_, rfl, fun i j hi hj => ?_⟩
+  · rw [compNodes_split G v p hv hloop a ha, hr]; simp [nodes]
+  · exact (subGr_split_other G v p nodes hlt hvm i j hi hj).2
+
+/-- non-vacuity: links 0–1, 2–3 | node 4 alone; splitting node 2 appends the twin (5) to its
+component; the other components are untouched -/
+def compG : Gr :=
+  { n := 5, adj := fun i j => (i, j) ∈ [(0, 1), (1, 0), (2, 3), (3, 2)],
+    w := fun k => [1, 2, 3, 1, 2].getD k 0, la := fun _ _ _ => 0, grp := fun _ _ => false,
+    dist := fun _ _ => none }
+
+example : compList compG = [[0, 1], [2, 3], [4]] ∧
+    compList (split compG 2 (1/4)) = [[0, 1], [2, 3, 5], [4]] ∧
+    compList (split compG 4 (1/4)) = [[0, 1], [2, 3], [4, 5]] := by
+  decide +kernel
 
 /-! ### round 5: `nsi_eigenvector_centrality`
 
